@@ -87,6 +87,8 @@ func GenCase(r *core.Rng, id int, pDecor, pBad float64) *Case {
 	gen.Decorate(r, s, d, pDecor, pBad)
 	defs := d.Defs()
 	l := gen.SingleFile(len(defs))
+	// the three line terminators of the GraphQL spec
+	l.Files[0].EOL = []string{"", "", "", "\r\n", "\r", "", "\r"}[id%7]
 	if r.Chance(0.3) {
 		l = gen.RandomLayout(r, len(defs), true)
 	}
